@@ -445,6 +445,7 @@ pub struct Ctx {
     pub len: usize,
     pub consume_nth: usize,
     pub nth_at: usize,
+    pub zero_is_noop: bool,
     pub finish: u8,
     pub seed: u64,
 }
@@ -789,6 +790,9 @@ where
             Op::Chunk(n, k) => {
                 call(ctx, tid, CallKind::Chunk, n, || match it.next_chunk(n) {
                     Some(c) => consume_chunk(ctx, c.begin_idx, n, c.values, k),
+                    // nothing was requested and nothing was returned: not an end report
+                    // (C16 has its own model of zero-size pulls)
+                    None if n == 0 && ctx.zero_is_noop => Res::Unit,
                     None => Res::End,
                 });
             }
@@ -1251,6 +1255,7 @@ where
         len: cfg.len,
         consume_nth: cfg.consume_nth,
         nth_at: cfg.nth_at,
+        zero_is_noop: cfg.prop != "C16",
         finish: cfg.finish,
         seed: cfg.run_seed,
     };
